@@ -127,7 +127,7 @@ def check_tensor(c):
             if k < N or ties:
                 res.nt((c['shape'], c['ranks'], c['pat'], k))
             # --- maxvol variant: entries and order only --------------------------------------------
-            if k <= 4:
+            if k <= 4 or k >= N:
                 for how in ('smart', 'l2r', 'r2l', 'both'):
                     res.ev()
                     case = dict(c, k=k, fn='optima_tt_maxvol', how=how)
@@ -144,6 +144,12 @@ def check_tensor(c):
                         res.check(abs(z1 - A[tuple(j1)]) <= t and abs(z2 - A[tuple(j2)]) <= t, 'maxvol.entry', case,
                                   lambda: 'values (%r, %r) vs entries (%r, %r)' % (z1, z2, A[tuple(j1)], A[tuple(j2)]), tags)
                     res.check(z1 <= z2 + 1e-12 * max(amax, 1e-300) + 1e-13 * aabs, 'maxvol.order', case, lambda: 'min %r > max %r' % (z1, z2), tags)
+                    if okb and k >= N:
+                        # nothing can be pruned: every multi-index is a candidate, the reported extremes are the true ones
+                        em = max(eps, 1e-9 * max(amax, 1e-300) + 1e-13 * aabs)      # this variant orthogonalises the tensor first: values carry rounding
+                        res.check(z1 <= tmin + em and z2 >= tmax - em, 'maxvol.full', case,
+                                  lambda: 'reported (min, max) = (%.12g, %.12g), true (%.12g, %.12g); k=%d N=%d how=%s' % (z1, z2, tmin, tmax, k, N, how),
+                                  tags + ['full'])
     res.check(ref.core_bytes(Y) == Yb, 'input_untouched', c, 'tensor modified by an optimum search', tags)
     # equivalent argument forms: NumPy-integer k, integer-typed cores, Fortran-ordered cores
     if c.get('scaled'):
